@@ -169,6 +169,12 @@ def r12_2(ctx):
         if any(isinstance(n, ast.Call) and ast.unparse(n.func) == "_touch_dep_file" and ast.unparse(n.args[1]) == f"{sym}.name" for n in ast.walk(st)):
             p.events.append(("TOUCH", st.lineno, None))
 
+    # locals of the loop body that only ever hold boolean constants (decision flags)
+    asg_vals: Dict[str, List[ast.AST]] = {}
+    for n in ast.walk(loop):
+        if isinstance(n, ast.Assign) and len(n.targets) == 1 and isinstance(n.targets[0], ast.Name):
+            asg_vals.setdefault(n.targets[0].id, []).append(n.value)
+    flags = {k for k, vs in asg_vals.items() if all(isinstance(v, ast.Constant) and isinstance(v.value, bool) for v in vs)}
     # only the statements of the body; alias loop taken 0/1 times does not matter for the decision
     paths = Enumerator(on_stmt).run(loop.body, Path())
     table: List[Tuple[Dict[str, bool], str]] = []
@@ -177,6 +183,9 @@ def r12_2(ctx):
         for c, pol, ln, node in p.conds:
             if "_deprecated_options" in c:
                 continue
+            base = node.operand if isinstance(node, ast.UnaryOp) and isinstance(node.op, ast.Not) else node
+            if isinstance(base, ast.Name) and base.id in flags:
+                continue  # a boolean flag set from the tests above: the enumerator has already pruned the infeasible arm
             at = _atoms_of(node, sym, val)
             if at is None:
                 raise AnalysisError(f"sync_deps loop: test `{c}` is not expressible over the atoms W/O/Bn/E")
@@ -259,6 +268,21 @@ def r12_3(ctx):
     (ctx.bad(construct, "; ".join(msgs), f.loc(al)) if msgs else ctx.ok(construct, f.loc(al)))
 
 
+def _unescapes_matched_string(repo, lo) -> bool:
+    """`unescape(<m>.group(1))` where <m> is the result of `_conf_string_match(<value>)` (whatever the local is called)"""
+    from .c04 import _reaching
+    for c in ast.walk(lo.node):
+        if isinstance(c, ast.Call) and ast.unparse(c.func) == "unescape" and c.args:
+            a = c.args[0]
+            if isinstance(a, ast.Call) and isinstance(a.func, ast.Attribute) and a.func.attr == "group" and isinstance(a.func.value, ast.Name):
+                v = _reaching(repo, lo.node, a.func.value.id, c)
+                if v is not None and isinstance(v, ast.Call) and ast.unparse(v.func) == "_conf_string_match":
+                    return True
+            if isinstance(a, ast.Call) and "_conf_string_match(" in ast.unparse(a):
+                return True
+    return False
+
+
 def r12_4(ctx):
     """R12.4 old-value reader/writer agreement: _load_old_vals parses auto.conf with the same _set_match as the sdkconfig
     reader, unescapes strings written through _escape, and touches the file of every name that is no longer a symbol."""
@@ -267,7 +291,7 @@ def r12_4(ctx):
     src = ast.unparse(lo.node)
     for label, ok in (
         ("parses lines with self._set_match", "self._set_match(line)" in src),
-        ("unescapes string values", "unescape(match.group(1))" in src and "_conf_string_match(val)" in src),
+        ("unescapes string values", _unescapes_matched_string(repo, lo)),
         ("touches names that are no longer symbols", any(ast.unparse(c.args[1]) == "name" for c in _calls_in(lo.node, "_touch_dep_file"))),
         ("a missing auto.conf is not an error", "ENOENT" in src),
     ):
@@ -281,7 +305,8 @@ def r12_4(ctx):
         ctx.bad(construct, "no store of _old_val", lo.loc())
     else:
         gs = fl.guards_at(st[0]) or set()
-        extra = sorted(g for g in gs if not (g in {("name in self.syms", True), ("match", True), ("not match", False)}))
+        extra = sorted(g for g in gs if not (g in {("name in self.syms", True), ("match", True), ("not match", False)}
+                                             or (g[1] and "_set_match(" in g[0]) or (g[1] and g[0].isidentifier() and g[0].endswith("match"))))
         (ctx.bad(construct, f"additionally guarded by {extra}", lo.loc(st[0])) if extra else ctx.ok(construct, lo.loc(st[0])))
     # _touch_dep_file: truncating touch on a path derived from the name
     t = repo.func(f"{CORE}:_touch_dep_file")
